@@ -1206,6 +1206,14 @@ fn family_review(g: &mut G, rng: &mut Rng, thorough: bool) {
         g.ctx.end_case(g.eng);
     }
 
+    // ---- C17 (seeded C17-4): idle sessions with a pending object at the MultiReceiver (oracle only)
+    {
+        g.cfg2("idle-sessions", 0, true, false, 1 << 16, true, true, 0, false, 0);
+        g.ctx.count("memory:idle-sessions");
+        g.ctx.step(g.eng, &format!("recv mr {}", if thorough { 200 } else { 20 }));
+        g.ctx.end_case(g.eng);
+    }
+
     // ---- C17 (review §3.5): one packet per TOI announcing a huge object in small blocks: the block
     //      table is pre-allocated whatever object_max_cache_size says
     {
@@ -1219,6 +1227,26 @@ fn family_review(g: &mut G, rng: &mut Rng, thorough: bool) {
         }
         g.ctx.end_case(g.eng);
     }
+}
+
+/// one object packet without FTI on an arbitrary TSI
+pub fn mk_pkt_tsi(tsi: u64, toi: u128, esi: u32) -> Vec<u8> {
+    let mut oti = Oti::new_no_code(16, 8);
+    oti.inband_fti = false;
+    let p = hk::PktFields {
+        payload: vec![7; 16],
+        transfer_length: 0,
+        esi,
+        sbn: 0,
+        toi,
+        fdt_id: None,
+        cenc: Cenc::Null,
+        inband_cenc: false,
+        close_object: false,
+        source_block_length: 0,
+        sender_current_time: false,
+    };
+    hk::new_alc_pkt(&oti, &0u128, tsi, &p, false, st(0))
 }
 
 /// like `fdt_pkts` but partitioned into source blocks of `b` symbols
